@@ -652,6 +652,37 @@ def main(chk: Check):
         else:
             base, mx = rng.choice([0, 150]), m.MAX_URL_LENGTH
         batch_inputs.append((q, base, mx))
+    # boundary-directed budgets: max_length = base + the REAL encoded length (urllib) of the query carrying
+    # exactly the first k values of the axis, and that length -1 / +1.  A batch then fills the budget
+    # exactly (or would overflow it by one), with and without other parameters, for both kinds of axis.
+    def boundary_query(kind, ids, pkgs):
+        if kind == 0:
+            return Q.ids(ids)
+        if kind == 1:
+            return Q.ids(ids) & Q.unresolved()
+        if kind == 2:
+            return (Q.ids(ids) & Q.unresolved() & Q(order="bug_id")).paged(100, 20)
+        if kind == 3:
+            return Q.ids(ids) & Q.keywords("ALLARCHES") & Q.cc("a+b@gentoo.org")
+        if kind == 4:
+            return Q.package_list_any(pkgs)
+        if kind == 5:
+            return Q.package_list_any(pkgs) & Q.unresolved()
+        if kind == 6:
+            return Q.ids([7, 8]) & Q.package_list_any(pkgs) & Q.component(e.Component.STABILIZATION)
+        return Q.keywords("x") & Q.any_of(Q.keywords("a"), Q.keywords("b")) & Q.package_list_any(pkgs)
+
+    kinds = list(range(8))
+    rng.shuffle(kinds)
+    for kind in (kinds * 5)[: chk.n(8, 40)]:
+        n = rng.randint(8, 40)
+        ids, pkgs = long_ids(n), long_pkgs(n, rng.random() < 0.6)
+        k = rng.randint(2, max(2, n // 2))
+        exact = len(urllib.parse.urlencode(boundary_query(kind, ids[:k], pkgs[:k]).params()))
+        base = rng.choice([0, 0, 57])
+        full = boundary_query(kind, ids, pkgs)
+        for d in (-1, 0, 1):
+            batch_inputs.append((full, base, base + exact + d))
     batch_cases, batch_fail = [], []
     for q, base, mx in batch_inputs:
         s = s_query(q)
